@@ -321,7 +321,7 @@ theorem phase_order {cfg : Cfg} {fs : FS} {rec : Runner} {tests : Bool} {fr : Fr
 
 /-- `@main` (when defined) starts by printing its marker after everything printed before -/
 theorem main_runs_last {cfg : Cfg} {fs : FS} {fuel : Nat} {s s' : St} {c : Closure} {r : Option Err}
-    (hinv : Inv s) (hm : s.exports.main = some c)
+    (hinv : Inv s) (hm : s.exports.main = some c) (hmk : c.marker ≠ 0)
     (h : runMain cfg fs (runUnit cfg fs fuel) s = some (r, s')) :
     ∃ t, s'.out = s.out ++ Event.print c.marker :: t := by
   unfold runMain at h
@@ -333,6 +333,7 @@ theorem main_runs_last {cfg : Cfg} {fs : FS} {fuel : Nat} {s s' : St} {c : Closu
   · rename_i r1 fr1 s1 ha
     simp only [Option.some.injEq, Prod.mk.injEq] at h
     rw [← h.2]
+    simp only [closureBody, hmk, if_false] at ha
     unfold execActs at ha
     simp only [execAct] at ha
     have inv1 : Inv (emit (Event.print c.marker) s) := (sound_emit_obs _ rfl s hinv).1
